@@ -73,6 +73,12 @@ def check_asm(case):
     if not ref:
         cls.add("empty-script")
     want = sr.assemble(ref)
+    if len(args) % 2 and all(kind == "data" for kind, _ in ref):
+        # history: the same argument list first goes through the witness form of the assembler, and the script's bytes
+        # through the witness form of the disassembler
+        attempt(bits.script.script, list(args), witness=True)
+        attempt(bits.script.decode_script, want, witness=True)
+        cls.add("nt:after-witness-calls-on-same-input")
     got = attempt_twice(f, f"asm/second-call-with-same-list-differs/{worst}", bits.script.script, args)
     if not f.expect(not raised(got) and got == want, f"asm/ne-reference/{worst}", repr(got)[:160]):
         return sorted(cls), f
@@ -155,6 +161,12 @@ def check_witness(case):
         cls.append("wit-small")
     big = "item>=253" if any(len(x) >= 253 for x in items) else ("empty" if not items else ("count>=253" if len(items) >= 253 else "small"))
     want = sr.witness_stack(items)
+    if len(items) % 2 and all(items):
+        # history: the same argument list is first assembled as an ordinary script, and the stack's bytes are first read
+        # as an ordinary script; what those calls leave behind must not show in the witness forms
+        attempt(bits.script.script, [x.hex() for x in items])
+        attempt(bits.script.decode_script, want + trailing)
+        cls.append("nt:after-non-witness-calls-on-same-input")
     got = attempt(bits.script.script, [x.hex() for x in items], witness=True)
     f.expect(not raised(got) and got == want, f"witness-ser/ne-reference/{big}", repr(got)[:160])
     dec = attempt_owned(f, f"witness-deser/differs-after-caller-edited-earlier-result/{big}", bits.script.decode_script, want + trailing, witness=True)
@@ -406,11 +418,11 @@ def _targets(tier):
     big = tier == "thorough"
     return [
         Target("asm-disasm", check_asm, strategy=lambda tier: asm_cases(big), budget={"quick": 4000, "thorough": 80000},
-               required=["nt:pushdata1", "nt:pushdata2"] + (["nt:pushdata4"] if big else [])),
+               required=["nt:pushdata1", "nt:pushdata2", "nt:after-witness-calls-on-same-input"] + (["nt:pushdata4"] if big else [])),
         Target("disasm-asm", check_opbytes, strategy=lambda tier: opbyte_cases(big), budget={"quick": 3000, "thorough": 60000}),
         Target("push-lengths", check_pushlen, enumerate_=enum_pushlens, required=["nt:pushdata1", "nt:pushdata2", "nt:pushdata4", "nt:boundary-len"], exhaustive=True),
         Target("witness", check_witness, strategy=lambda tier: witness_cases(big), budget={"quick": 3000, "thorough": 60000},
-               required=["nt:wit-empty", "nt:wit-item>=253", "nt:wit-item-0"] + (["nt:wit-count>=253"] if big else [])),
+               required=["nt:wit-empty", "nt:wit-item>=253", "nt:wit-item-0", "nt:after-non-witness-calls-on-same-input"] + (["nt:wit-count>=253"] if big else [])),
         Target("witness-lengths", check_witness, enumerate_=enum_witlens,
                required=["nt:wit-item>=253", "nt:wit-item>=65536", "nt:wit-count>=253", "nt:wit-item-0"], exhaustive=True),
         Target("builders", check_builder, enumerate_=enum_builders,
